@@ -103,3 +103,40 @@ PROPS = {
         assumptions=COMMON_ASSUME,
     ),
 }
+
+HARNESSES['h_modify'] = dict(src='h_modify.cpp', insts=['inst_soplex'])
+
+PROPS['C06'] = dict(
+    level='exploration',
+    level_text='Seeded histories over all 31 real-interface modification entry points interleaved with optimize/getBasis/setBasis/clearBasis: '
+               'after EVERY call every accessor is compared bit for bit with a dense exact mirror (documented perm[] renumbering validated, '
+               'undocumented single-removal order adopted after a multiset check), stale solution/status is checked, surviving bases go '
+               'through the basis monitor, and at each solve the status/value is compared with a new solver built from the mirror and with '
+               'certified truth. Configurations cross scaler x persistent scaling x simplifier x representation. Sampling of histories.',
+    level_note='solve equivalence judged only on instances with certified, tolerance-robust class; small integer data',
+    technique='runtime monitoring: sequential reference-model (mirror) check after each API call of seeded histories, under ASan+UBSan',
+    stages=two_flavour('h_modify', 300, 1200, 6000, 20000),
+    minima=lambda t: {'c06.solves_compared': 300, 'c06.stale_checks': 3000, 'c06.op.removeRowsReal(perm)': 50, 'c06.op.changeElementReal': 50,
+                      'c06.op.removeColRangeReal': 30, 'c06.basis_after_modification_checked': 300},
+    eval_counter='cases', distinct_set='nontrivial',
+    rule='case k -> (history seed, scaler=k%7, persistent=(k/7)%2, simplifier=(k/14)%2, representation=(k/28)%3, other parameters random); '
+         '60 (quick) / 90 (thorough) steps per history; distinct = hash(history seed x configuration)',
+    assumptions=COMMON_ASSUME,
+)
+PROPS['C09'] = dict(
+    level='exploration',
+    level_text='(a) each of the six scaler objects applied stand-alone to badly scaled LPs (entries spanning up to 2^+-150): every stored '
+               'coefficient, side, bound and objective entry must equal ldexp(original, exponent combination) bit for bit, every *Unscaled '
+               'getter must return the original, unscaleLP() must restore the LP bit for bit; (b) user level: accessor snapshot and written '
+               'LP/MPS files identical before and after scaled solves, certificates/Farkas/rays valid for the unscaled LP, and data added or '
+               'changed while persistent scaling is active reads back exactly, over 2-14 solve/modify cycles. Sampling.',
+    level_note='magnitudes kept within 2^+-200 so power-of-two scaling cannot overflow; observed exponents are reported (all-zero => inconclusive)',
+    technique='runtime monitoring: bitwise power-of-two oracle on bare scalers and mirror/byte comparison at user level, under ASan+UBSan',
+    stages=two_flavour('h_modify', 1200, 5000, 30000, 100000),
+    minima=lambda t: {'c09.bare.nonzero_exponents_seen': 300, 'c09.bare.unscaleLP_checked': 150, 'c09.user.nonzero_exponents_seen': 200,
+                      'c09.user.files_compared': 200, 'c09.user.certificates_checked': 200},
+    eval_counter='cases', distinct_set='nontrivial',
+    rule='even k: bare scaler (scaler=1+(k/8)%6, persistent=(k/48)%2) on a seeded badly-scaled LP; odd k: user-level history (scaler=(k/2)%7, '
+         'persistent=(k/14)%2); distinct = hash(LP signature or history seed x scaler x mode)',
+    assumptions=COMMON_ASSUME,
+)
